@@ -28,7 +28,22 @@ func (c *Ctx) pathsO(rule string, fn *ssa.Function, opts an.PathOpts) []*an.Path
 	if err != nil {
 		c.R.Undecided(rule, "paths:"+c.fname(fn), c.fname(fn), c.pos(fn.Pos()), err.Error())
 	}
+	c.notePaths(fn, len(ps))
 	return ps
+}
+
+// notePaths accumulates how much was enumerated, for the evidence file.
+func (c *Ctx) notePaths(fn *ssa.Function, n int) {
+	cur, _ := c.R.Stats["paths_enumerated"].(int)
+	c.R.Stats["paths_enumerated"] = cur + n
+	m, _ := c.R.Stats["functions_path_enumerated"].(map[string]int)
+	if m == nil {
+		m = map[string]int{}
+		c.R.Stats["functions_path_enumerated"] = m
+	}
+	if n > m[c.fname(fn)] {
+		m[c.fname(fn)] = n
+	}
 }
 
 // inlineAllModule enumerates module-local loop-free callees path by path.
